@@ -47,8 +47,9 @@ class Gen:
              cmp := cop (cmpop cop)* ; cop := N | '(' L ')'
     """
 
-    def __init__(self, rng, maxdepth=6, maxops=40, size=1.0):
+    def __init__(self, rng, maxdepth=6, maxops=40, size=1.0, funcs=True):
         self.r = rng
+        self.funcs = funcs        # False: no built-in functions (operator subsets without them)
         self.size = size          # scales the probability of longer chains / deeper nesting
         self.maxdepth = maxdepth
         self.maxops = maxops
@@ -80,7 +81,7 @@ class Gen:
             return self.num()
         self.ops += 1
         x = self.r.random()
-        if x < 0.42:
+        if x < 0.42 or not self.funcs:
             return ['par', self.add(d - 1)]
         if x < 0.82:
             return ['f', self.r.choice(F1), [self.add(d - 1)]]
